@@ -3,6 +3,9 @@
    language without flags, every store, every decision sequence, every terminating run (also found by the
    fuelled interpreter), the lowered program started in ANY store produces the same ordered trace of
    user atoms and user tests, the same outcome and consumes the same decisions.
+   The language includes try/except/else/finally and with under their exception-free semantics (atoms do
+   not raise: handlers never run, else runs when the body completes, finally always runs; a jump out of a
+   finally clause and `raise` have no rule, so runs reaching them are outside the statement).
    Model = Passes.brk_block, tied to malt/converters/break_statements.py by structural comparison of
    its output with the real pass on generated programs (tools/props/c01.py). *)
 From Coq Require Import List Arith Bool.
